@@ -31,6 +31,7 @@ type BlockSpec struct {
 	Ops      []Op  `json:"ops"`
 	NonSign  []int `json:"nonsign"`  // validators that do not sign this block's certificate
 	DblSign  []int `json:"dblsign"`  // validators reported as double signers (for the previous height) in the certificate results
+	DblTwo   bool  `json:"dblTwo"`   // ... for the two previous heights
 	PayTo    []int `json:"payto"`    // reward recipients of this certificate (validator indices); empty = proposer
 	Proposer int   `json:"proposer"` // which validator's key is named as proposer in the certificate
 }
@@ -69,6 +70,7 @@ type DblRec struct {
 }
 
 type ledgerSim struct {
+	reported   map[string]bool // (validator, height) pairs already reported as double signs
 	pendingDbl []DblRec
 	hist       map[string]string // "chain/height" -> committee answered when that height was current
 	n          *node
@@ -83,6 +85,7 @@ type ledgerSim struct {
 // validator 0 holds more than 2/3 of the power, always signs and is never touched by the generated operations, so
 // that a block that cannot be committed is a ledger problem and not a lost quorum
 var wrapGenesis = false // total supply within a few block mints of 2^64
+var protocolV2 = false  // committee scoped slashing with a per-block cap (protocol version 2)
 
 func ledgerGenesis(big64, empty bool) GenesisSpec {
 	gs := GenesisSpec{Stakes: []uint64{1000000, 2, 2, 1, 0, 0}, Accounts: 3, Balance: 100000,
@@ -104,6 +107,17 @@ func ledgerGenesis(big64, empty bool) GenesisSpec {
 		}}
 	if empty {
 		gs.Stakes = []uint64{1000000, 0, 0, 0, 0, 0}
+	}
+	if protocolV2 {
+		base := gs.Params
+		gs.Params = func(p *fsm.Params) {
+			base(p)
+			p.Consensus.ProtocolVersion = fsm.NewProtocolVersion(0, 2)
+			p.Validator.DoubleSignSlashPercentage = 10
+			p.Validator.NonSignSlashPercentage = 5
+			p.Validator.MaxSlashPerCommittee = 15
+		}
+		gs.Stakes = []uint64{1000000, 2000, 2000, 1000, 0, 0}
 	}
 	if big64 {
 		gs.Balance = (1 << 62) / 8
@@ -340,8 +354,18 @@ func (s *ledgerSim) block(b BlockSpec, note string) (ok bool) {
 		if p.results.SlashRecipients == nil {
 			p.results.SlashRecipients = &lib.SlashRecipients{}
 		}
+		heights := []uint64{h - 1}
+		if s.reported == nil {
+			s.reported = map[string]bool{}
+		}
+		if b.DblTwo && h > 3 && !s.reported[fmt.Sprintf("%d/%d", i, h-2)] { // two heights in one report: under protocol 2 the second slash hits the per-block cap and ejects
+			heights = []uint64{h - 1, h - 2}
+		}
+		for _, x := range heights {
+			s.reported[fmt.Sprintf("%d/%d", i, x)] = true
+		}
 		p.results.SlashRecipients.DoubleSigners = append(p.results.SlashRecipients.DoubleSigners,
-			&lib.DoubleSigner{Id: n.valKeys[i].PublicKey().Bytes(), Heights: []uint64{h - 1}})
+			&lib.DoubleSigner{Id: n.valKeys[i].PublicKey().Bytes(), Heights: heights})
 	}
 	var signers []int
 	for i := range n.valKeys {
@@ -478,6 +502,7 @@ func randomBlock(rng *rand.Rand, nv, na int) BlockSpec {
 	}
 	if rng.Intn(5) == 0 {
 		b.DblSign = []int{1 + rng.Intn(nv-1)}
+		b.DblTwo = rng.Intn(2) == 0
 	}
 	if rng.Intn(2) == 0 {
 		b.PayTo = []int{rng.Intn(nv)}
@@ -492,6 +517,7 @@ func randomBlock(rng *rand.Rand, nv, na int) BlockSpec {
 func ledgerRandom(seed int64, runs, blocks int, big64 bool, out *json.Encoder) error {
 	rng := rand.New(rand.NewSource(seed))
 	for r := 0; r < runs; r++ {
+		protocolV2 = !big64 && r%3 == 2
 		s, err := newLedgerSim(r, out, big64, false)
 		if err == nil {
 			s.rng = rand.New(rand.NewSource(seed + int64(r)))
